@@ -76,7 +76,7 @@ var constKinds = []constKind{
 	{"lambdaparam", []string{"(%N => %N)(%V)", "func(%N){%N}(%V)", "((%N, b) => %N + b)(%V, %V)", "(%N => {%N = 0})(%V)"}, true, false},
 	{"namedfunc", []string{"func %N(){1}", "func %N(x){x}"}, true, false},
 	{"sameval", []string{"%N = %N", "%N := %N", "%N = %S", "%N[0] = %E", "%N.k = %N.k", "%N = %N + 0"}, true, false},
-	{"cmpequal", []string{"%N = %Q", "%N := %Q", "func(){%N = %Q}()"}, false, false},
+	{"cmpequal", []string{"%N = %Q", "%N := %Q", "func(){%N = %Q}()", "%N[1] = %N[1] * 1.0", "%N.k = %N.k * 1.0", "%N[0] = %N[0] * 1.0"}, false, false},
 	{"selfop", []string{"%N = %N + 1", "%N = %N + [1]", `%N = %N + {"q":1}`, "%N = -%N", "%N = !%N", "%N = %N[1:]", "%N = rest(%N)"}, false, false},
 	{"alias", []string{"b9 = %N; b9[0] = %V", "b9 = %N; b9.k = %V", "b9 = %N; del(b9.k)", "b9 = %N; del(b9[0])", "b9 = [%N]; c9 = b9[0]; c9[0] = %V", "func g9(x){x[0] = %V}; g9(%N)", "b9 = %N; b9[0][0] = %V", "b9 = %N[0]; b9[0] = %V", "b9 = %N + 0; c9 = %N + 1"}, true, false},
 	{"del", []string{"del(%N)"}, false, true},
